@@ -15,10 +15,10 @@ variable {M K R : Type}
 /-- `Collection.Add` never writes to its caller's heap: every array that existed before the call has
 exactly the cells it had (in particular the caller's option array, within AND beyond the view passed),
 whatever the view's length and spare capacity; and the call does what `Add` does on the view's contents. -/
-theorem C01_add_leaves_caller_options (cfg : Cfg M K R) (st : CState M R) (h : Heap (WOpt M K)) (id : String)
+theorem C01_add_leaves_caller_options (cat : K → K → K) (cfg : Cfg M K R) (st : CState M R) (h : Heap (WOpt M K)) (id : String)
     (msg : M) (opts : Slice) (hv : opts.arr < h.length) :
-    (∀ i, i < h.length → Heap.cells (Coll.addS cfg st h id msg opts).2 i = Heap.cells h i) ∧
-    (Coll.addS cfg st h id msg opts).1 = Coll.addO cfg st id msg (h.read opts) := by
+    (∀ i, i < h.length → Heap.cells (Coll.addS cat cfg st h id msg opts).2 i = Heap.cells h i) ∧
+    (Coll.addS cat cfg st h id msg opts).1 = Coll.addO cat cfg st id msg (h.read opts) := by
   have hread : Heap.read (h ++ [[WOpt.expectAbsent, WOpt.createIfAbsent]]) opts = h.read opts := by
     unfold Heap.read
     rw [cells_append_left h _ _ hv]
